@@ -194,14 +194,74 @@ theorem tex_end_is_total (t : TexIter) (v : t.Inv) (hi : ¬ t.idx < t.len) :
 
 /-! ### decoder-level invariant over arbitrary histories -/
 
+/-- when a surface is current, `advance` adds exactly its length to the elapsed bytes -/
+theorem advance_elapsed (it : SurfIter) (v : IterInv it) (s : SurfInfo)
+    (hc : it.currentP = some (some s)) :
+    ∃ it', it.advanceP = some it' ∧ elapsed it' = elapsed it + s.len := by
+  cases it with
+  | tex t =>
+    have hcur := TexIter.Inv.currentP v
+    simp only [SurfIter.currentP] at hc
+    rw [hcur] at hc
+    by_cases hi : t.idx < t.len
+    · rw [if_pos hi] at hc
+      simp only [Option.some.injEq] at hc
+      subst hc
+      exact ⟨.tex t.advance, rfl, TexIter.Inv.advance_elapsed v hi⟩
+    · rw [if_neg hi] at hc; simp at hc
+  | vol t =>
+    have hcur := VolIter.Inv.currentP v
+    simp only [SurfIter.currentP] at hc
+    rw [hcur] at hc
+    by_cases hl : t.level < t.volume.mips
+    · rw [if_pos hl] at hc
+      simp only [Option.some.injEq] at hc
+      subst hc
+      obtain ⟨it', h1, h2⟩ := VolIter.Inv.advance_elapsed v hl
+      exact ⟨.vol it', by simp [SurfIter.advanceP, h1], h2⟩
+    · rw [if_neg hl] at hc; simp at hc
+
+theorem rewind_elapsed_le (it : SurfIter) (v : IterInv it) :
+    ∃ it', it.rewindP = some it' ∧ elapsed it' ≤ elapsed it := by
+  cases it with
+  | tex t => exact ⟨.tex t.rewind, rfl, TexIter.Inv.rewind_elapsed_le v⟩
+  | vol t =>
+    obtain ⟨it', h1, h2⟩ := VolIter.Inv.rewind_elapsed_le v
+    exact ⟨.vol it', by simp [SurfIter.rewindP, h1], h2⟩
+
+theorem skipMipmaps_refines (it : SurfIter) (v : IterInv it) :
+    it.skipMipmapsP = some (.error ()) ∨
+    ∃ it' n, it.skipMipmapsP = some (.ok (it', n)) ∧ IterInv it' ∧ elapsed it' = elapsed it + n ∧
+      count it' = count it ∧ total it' = total it ∧ flat it' = flat it := by
+  cases it with
+  | tex t =>
+    obtain ⟨it', n, h0, h1, h2, h3, h4, _⟩ := TexIter.Inv.skipMipmapsP v
+    refine Or.inr ⟨.tex it', n, by simp [SurfIter.skipMipmapsP, h0], h1, h4, ?_, ?_, ?_⟩
+    · show it'.len * it'.first.mips = t.len * t.first.mips; rw [h2, h3]
+    · show it'.len * it'.T = t.len * t.T; unfold TexIter.T; rw [h2, h3]
+    · show specArray _ _ _ _ _ = specArray _ _ _ _ _; rw [h2, h3]
+  | vol t =>
+    obtain ⟨herr, hok⟩ := VolIter.Inv.skipMipmapsP v
+    by_cases hd : t.depth = 0
+    · obtain ⟨it', n, h0, h1, h2, h3, _⟩ := hok hd
+      refine Or.inr ⟨.vol it', n, by simp [SurfIter.skipMipmapsP, h0, Except.map], h1, h3, ?_, ?_, ?_⟩
+      · show depthSum _ _ _ = depthSum _ _ _; rw [h2]
+      · show volIdeal _ _ _ _ _ _ = volIdeal _ _ _ _ _ _; rw [h2]
+      · show specVolFlat _ _ _ _ _ _ _ = specVolFlat _ _ _ _ _ _ _; rw [h2]
+    · exact Or.inl (by simp [SurfIter.skipMipmapsP, herr hd, Except.map])
+
 /-- the decoder invariant: the iterator invariant, the reader position equal to the ideal
-offset of the cursor, and a fresh iterator for the same layout being valid too -/
+offset of the cursor, and a fresh iterator for the same layout being valid too; the data
+section is at most `i64::MAX` bytes (larger files cannot exist; the rewinding calls document a
+panic beyond it) -/
 structure DecInv (d : Dec) : Prop where
   iter : IterInv d.iter
   pos : d.pos = (elapsed d.iter : Int)
   fresh : IterInv (SurfIter.new d.layout)
-  same : count (SurfIter.new d.layout) = count d.iter ∧ total (SurfIter.new d.layout) = total d.iter
-    ∧ flat (SurfIter.new d.layout) = flat d.iter
+  count_eq : count (SurfIter.new d.layout) = count d.iter
+  total_eq : total (SurfIter.new d.layout) = total d.iter
+  flat_eq : flat (SurfIter.new d.layout) = flat d.iter
+  small : total d.iter ≤ I64MAX
 
 theorem elapsed_new (L : DataLayout) : elapsed (SurfIter.new L) = 0 := by
   cases L with
@@ -209,26 +269,408 @@ theorem elapsed_new (L : DataLayout) : elapsed (SurfIter.new L) = 0 := by
   | volume v => simp [SurfIter.new, elapsed, VolIter.elapsed, volIdeal]
   | textureArray a => simp [SurfIter.new, elapsed, TexIter.elapsed, texIdeal]
 
+/-- moving the iterator forward over the current surface keeps the invariant -/
+private theorem consume_inv (d : Dec) (v : DecInv d) (s : SurfInfo)
+    (hc : d.iter.currentP = some (some s)) :
+    ∃ it', d.iter.advanceP = some it' ∧ DecInv { d with iter := it', pos := d.pos + s.len } := by
+  obtain ⟨it', ha, hi, _, hcnt, ht, hf⟩ := advance_refines d.iter v.iter
+  obtain ⟨it2, ha2, he⟩ := advance_elapsed d.iter v.iter s hc
+  rw [ha] at ha2
+  simp only [Option.some.injEq] at ha2
+  subst ha2
+  refine ⟨it', ha, ⟨hi, ?_, v.fresh, ?_, ?_, ?_, ?_⟩⟩
+  · show d.pos + (s.len : Int) = (elapsed it' : Int)
+    rw [he, v.pos]; omega
+  · show count (SurfIter.new d.layout) = count it'; rw [hcnt]; exact v.count_eq
+  · show total (SurfIter.new d.layout) = total it'; rw [ht]; exact v.total_eq
+  · show flat (SurfIter.new d.layout) = flat it'; rw [hf]; exact v.flat_eq
+  · show total it' ≤ I64MAX; rw [ht]; exact v.small
+
 private theorem readSurface_inv (d : Dec) (v : DecInv d) (w h : Nat) :
     DecInv (d.readSurface w h).1 ∧ (d.readSurface w h).2 ≠ .panic ∧
-      ((d.readSurface w h).2 ≠ .ok → (d.readSurface w h).1 = d) ∧
-      (d.readSurface w h).1.layout = d.layout := by
+      ((d.readSurface w h).2 ≠ .ok → (d.readSurface w h).1 = d) := by
   unfold Dec.readSurface
   obtain ⟨r, hr, _⟩ := current_total d.iter v.iter
   rw [hr]
   cases r with
-  | none => exact ⟨v, by simp, fun _ => rfl, rfl⟩
+  | none => exact ⟨v, by simp, fun _ => rfl⟩
   | some s =>
     simp only
     by_cases h1 : normSize w h ≠ (s.w, s.h)
-    · rw [if_pos h1]; exact ⟨v, by simp, fun _ => rfl, rfl⟩
+    · rw [if_pos h1]; exact ⟨v, by simp, fun _ => rfl⟩
     · rw [if_neg h1]
       by_cases h2 : likelyOverflow d.layout.px (normSize w h).1 (normSize w h).2 = true
-      · rw [if_pos h2]; exact ⟨v, by simp, fun _ => rfl, rfl⟩
+      · rw [if_pos h2]; exact ⟨v, by simp, fun _ => rfl⟩
       · rw [if_neg h2]
-        obtain ⟨it', ha, hi, habs, hc, ht, hf⟩ := advance_refines d.iter v.iter
+        obtain ⟨it', ha, hinv⟩ := consume_inv d v s hr
         rw [ha]
-        refine ⟨?_, by simp, fun hne => absurd rfl hne, rfl⟩
-        sorry
+        exact ⟨hinv, by simp, fun hne => absurd rfl hne⟩
+
+private theorem skipMipmaps_inv (d : Dec) (v : DecInv d) :
+    DecInv d.skipMipmaps.1 ∧ d.skipMipmaps.2 ≠ .panic ∧
+      (d.skipMipmaps.2 ≠ .ok → d.skipMipmaps.1 = d) := by
+  unfold Dec.skipMipmaps
+  cases skipMipmaps_refines d.iter v.iter with
+  | inl h => rw [h]; exact ⟨v, by simp, fun _ => rfl⟩
+  | inr h =>
+    obtain ⟨it', n, h0, hi, he, hcnt, ht, hf⟩ := h
+    rw [h0]
+    refine ⟨⟨hi, ?_, v.fresh, ?_, ?_, ?_, ?_⟩, by simp, fun hne => absurd rfl hne⟩
+    · show d.pos + (n : Int) = (elapsed it' : Int)
+      rw [he, v.pos]; omega
+    · show count (SurfIter.new d.layout) = count it'; rw [hcnt]; exact v.count_eq
+    · show total (SurfIter.new d.layout) = total it'; rw [ht]; exact v.total_eq
+    · show flat (SurfIter.new d.layout) = flat it'; rw [hf]; exact v.flat_eq
+    · show total it' ≤ I64MAX; rw [ht]; exact v.small
+
+private theorem cubeLoop_inv (faces fw fh : Nat) : ∀ (l : List (Nat × Nat × Nat)) (d : Dec)
+    (cells : List (Nat × Nat)), DecInv d →
+    DecInv (d.cubeLoop faces fw fh l cells).1 ∧ (d.cubeLoop faces fw fh l cells).2.1 ≠ .panic := by
+  intro l
+  induction l with
+  | nil => intro d cells v; exact ⟨v, by simp [Dec.cubeLoop]⟩
+  | cons x rest ih =>
+    intro d cells v
+    obtain ⟨bit, cx, cy⟩ := x
+    unfold Dec.cubeLoop
+    by_cases hf : (!hasFace faces bit) = true
+    · rw [if_pos hf]; exact ih d cells v
+    · rw [if_neg hf]
+      obtain ⟨r, hr, _⟩ := current_total d.iter v.iter
+      rw [hr]
+      cases r with
+      | none => exact ⟨v, by simp⟩
+      | some s =>
+        simp only
+        by_cases hs : (s.w, s.h) ≠ (fw, fh)
+        · rw [if_pos hs]; exact ⟨v, by simp⟩
+        · rw [if_neg hs]
+          obtain ⟨h1, h2, _⟩ := readSurface_inv d v fw fh
+          generalize hrd : d.readSurface fw fh = rd at h1 h2
+          obtain ⟨d1, r1⟩ := rd
+          cases r1 with
+          | ok =>
+            simp only
+            obtain ⟨h3, h4, _⟩ := skipMipmaps_inv d1 h1
+            generalize hsk : d1.skipMipmaps = sk at h3 h4
+            obtain ⟨d2, r2⟩ := sk
+            cases r2 with
+            | ok => simp only; exact ih d2 _ h3
+            | panic => exact absurd rfl h4
+            | noMoreSurfaces => exact ⟨h3, by simp⟩
+            | unexpectedSurfaceSize => exact ⟨h3, by simp⟩
+            | rectOutOfBounds => exact ⟨h3, by simp⟩
+            | cannotSkipMipmapsInVolume => exact ⟨h3, by simp⟩
+            | notACubeMap => exact ⟨h3, by simp⟩
+            | memoryLimitExceeded => exact ⟨h3, by simp⟩
+          | panic => exact absurd rfl h2
+          | noMoreSurfaces => exact ⟨h1, by simp⟩
+          | unexpectedSurfaceSize => exact ⟨h1, by simp⟩
+          | rectOutOfBounds => exact ⟨h1, by simp⟩
+          | cannotSkipMipmapsInVolume => exact ⟨h1, by simp⟩
+          | notACubeMap => exact ⟨h1, by simp⟩
+          | memoryLimitExceeded => exact ⟨h1, by simp⟩
+
+/-- Every decoder call keeps the invariant (reader position = offset of the surface the
+decoder reports as next) and none of them panics. -/
+theorem step_inv (d : Dec) (v : DecInv d) (op : DecOp) :
+    DecInv (d.step op).1 ∧ (d.step op).2.1 ≠ .panic := by
+  cases op with
+  | read w h =>
+    obtain ⟨h1, h2, _⟩ := readSurface_inv d v w h
+    exact ⟨h1, h2⟩
+  | readRect ox oy w h =>
+    unfold Dec.step
+    obtain ⟨r, hr, _⟩ := current_total d.iter v.iter
+    rw [hr]
+    cases r with
+    | none => exact ⟨v, by simp⟩
+    | some s =>
+      simp only
+      by_cases h1 : likelyOverflow d.layout.px s.w s.h = true
+      · rw [if_pos h1]; exact ⟨v, by simp⟩
+      · rw [if_neg h1]
+        by_cases h2 : (!containsRect s.w s.h ox oy (normSize w h).1 (normSize w h).2) = true
+        · rw [if_pos h2]; exact ⟨v, by simp⟩
+        · rw [if_neg h2]
+          obtain ⟨it', ha, hinv⟩ := consume_inv d v s hr
+          rw [ha]
+          exact ⟨hinv, by simp⟩
+  | skipSurface =>
+    unfold Dec.step
+    obtain ⟨r, hr, _⟩ := current_total d.iter v.iter
+    rw [hr]
+    cases r with
+    | none => exact ⟨v, by simp⟩
+    | some s =>
+      simp only
+      obtain ⟨it', ha, hinv⟩ := consume_inv d v s hr
+      rw [ha]
+      exact ⟨hinv, by simp⟩
+  | skipMipmaps =>
+    obtain ⟨h1, h2, _⟩ := skipMipmaps_inv d v
+    exact ⟨h1, h2⟩
+  | rewindPrev =>
+    unfold Dec.step
+    obtain ⟨he, hle⟩ := elapsed_refines d.iter v.iter
+    obtain ⟨it', hr, hi, _, hcnt, ht, hf⟩ := rewind_refines d.iter v.iter
+    obtain ⟨it2, hr2, hle2⟩ := rewind_elapsed_le d.iter v.iter
+    rw [hr] at hr2
+    simp only [Option.some.injEq] at hr2
+    subst hr2
+    obtain ⟨he', hle'⟩ := elapsed_refines it' hi
+    rw [he, hr]
+    simp only [he']
+    have hsmall := v.small
+    have hU : I64MAX < U64 := by decide
+    have hsub : wSub (elapsed d.iter) (elapsed it') = elapsed d.iter - elapsed it' :=
+      wSub_eq (by omega) hle2
+    rw [hsub]
+    have hnot : ¬ elapsed d.iter - elapsed it' > I64MAX := by omega
+    rw [if_neg hnot]
+    refine ⟨⟨hi, ?_, v.fresh, ?_, ?_, ?_, ?_⟩, by simp⟩
+    · show d.pos - ((elapsed d.iter - elapsed it' : Nat) : Int) = (elapsed it' : Int)
+      rw [v.pos]; omega
+    · show count (SurfIter.new d.layout) = count it'; rw [hcnt]; exact v.count_eq
+    · show total (SurfIter.new d.layout) = total it'; rw [ht]; exact v.total_eq
+    · show flat (SurfIter.new d.layout) = flat it'; rw [hf]; exact v.flat_eq
+    · show total it' ≤ I64MAX; rw [ht]; exact v.small
+  | rewindStart =>
+    unfold Dec.step
+    obtain ⟨he, hle⟩ := elapsed_refines d.iter v.iter
+    rw [he]
+    simp only
+    have hsmall := v.small
+    have hnot : ¬ elapsed d.iter > I64MAX := by omega
+    rw [if_neg hnot]
+    refine ⟨⟨v.fresh, ?_, v.fresh, rfl, rfl, rfl, ?_⟩, by simp⟩
+    · show d.pos - (elapsed d.iter : Int) = (elapsed (SurfIter.new d.layout) : Int)
+      rw [v.pos, elapsed_new]; omega
+    · show total (SurfIter.new d.layout) ≤ I64MAX; rw [v.total_eq]; exact v.small
+  | readCubeMap w h =>
+    show DecInv (d.readCubeMap w h).1 ∧ (d.readCubeMap w h).2.1 ≠ .panic
+    unfold Dec.readCubeMap
+    cases hL : d.layout with
+    | texture t => exact ⟨v, by simp⟩
+    | volume t => exact ⟨v, by simp⟩
+    | textureArray a =>
+      simp only
+      cases a.kind with
+      | textures => exact ⟨v, by simp⟩
+      | cubeMaps =>
+        simp only
+        split
+        · exact ⟨v, by simp⟩
+        · exact cubeLoop_inv _ _ _ _ d [] v
+      | partialCubeMap f =>
+        simp only
+        split
+        · exact ⟨v, by simp⟩
+        · exact cubeLoop_inv _ _ _ _ d [] v
+
+/-- run a whole history -/
+def run (d : Dec) : List DecOp → Dec × List DecRes
+  | [] => (d, [])
+  | op :: rest =>
+    let r := d.step op
+    let (d', rs) := run r.1 rest
+    (d', r.2.1 :: rs)
+
+/-- C08, histories: after ANY sequence of decoder operations (no depth bound) the reader
+position equals the layout offset of the surface the decoder reports as next (the data
+length at the end), the iterator invariant holds, and no call panicked. -/
+theorem history (ops : List DecOp) : ∀ (d : Dec), DecInv d →
+    DecInv (run d ops).1 ∧ ∀ r ∈ (run d ops).2, r ≠ .panic := by
+  induction ops with
+  | nil => intro d v; exact ⟨v, by simp [run]⟩
+  | cons op rest ih =>
+    intro d v
+    obtain ⟨h1, h2⟩ := step_inv d v op
+    obtain ⟨h3, h4⟩ := ih (d.step op).1 h1
+    simp only [run]
+    refine ⟨h3, ?_⟩
+    intro r hr
+    simp only [List.mem_cons] at hr
+    cases hr with
+    | inl h => rw [h]; exact h2
+    | inr h => exact h4 r h
+
+/-- Rejected calls (wrong size, out-of-bounds rect, past the end, skip inside a volume)
+change nothing: neither the cursor nor the reader position. -/
+theorem rejected_unchanged (d : Dec) (v : DecInv d) (op : DecOp)
+    (hop : ∀ w h, op ≠ .readCubeMap w h) (hr : (d.step op).2.1 ≠ .ok) : (d.step op).1 = d := by
+  cases op with
+  | read w h =>
+    obtain ⟨_, _, h3⟩ := readSurface_inv d v w h
+    exact h3 hr
+  | readRect ox oy w h =>
+    revert hr
+    unfold Dec.step
+    obtain ⟨r, hc, _⟩ := current_total d.iter v.iter
+    rw [hc]
+    cases r with
+    | none => intro _; rfl
+    | some s =>
+      simp only
+      by_cases h1 : likelyOverflow d.layout.px s.w s.h = true
+      · rw [if_pos h1]; intro _; rfl
+      · rw [if_neg h1]
+        by_cases h2 : (!containsRect s.w s.h ox oy (normSize w h).1 (normSize w h).2) = true
+        · rw [if_pos h2]; intro _; rfl
+        · rw [if_neg h2]
+          obtain ⟨it', ha, _⟩ := consume_inv d v s hc
+          rw [ha]; intro hne; exact absurd rfl hne
+  | skipSurface =>
+    revert hr
+    unfold Dec.step
+    obtain ⟨r, hc, _⟩ := current_total d.iter v.iter
+    rw [hc]
+    cases r with
+    | none => intro _; rfl
+    | some s =>
+      simp only
+      obtain ⟨it', ha, _⟩ := consume_inv d v s hc
+      rw [ha]; intro hne; exact absurd rfl hne
+  | skipMipmaps =>
+    obtain ⟨_, _, h3⟩ := skipMipmaps_inv d v
+    exact h3 hr
+  | rewindPrev =>
+    exfalso
+    revert hr
+    unfold Dec.step
+    obtain ⟨he, hle⟩ := elapsed_refines d.iter v.iter
+    obtain ⟨it', hrw, hi, _, _, ht, _⟩ := rewind_refines d.iter v.iter
+    obtain ⟨it2, hr2, hle2⟩ := rewind_elapsed_le d.iter v.iter
+    rw [hrw] at hr2
+    simp only [Option.some.injEq] at hr2
+    subst hr2
+    obtain ⟨he', _⟩ := elapsed_refines it' hi
+    rw [he, hrw]
+    simp only [he']
+    have hsmall := v.small
+    have hU : I64MAX < U64 := by decide
+    rw [wSub_eq (by omega) hle2]
+    have hnot : ¬ elapsed d.iter - elapsed it' > I64MAX := by omega
+    rw [if_neg hnot]
+    intro hne; exact hne rfl
+  | rewindStart =>
+    exfalso
+    revert hr
+    unfold Dec.step
+    obtain ⟨he, hle⟩ := elapsed_refines d.iter v.iter
+    rw [he]
+    simp only
+    have hsmall := v.small
+    have hnot : ¬ elapsed d.iter > I64MAX := by omega
+    rw [if_neg hnot]
+    intro hne; exact hne rfl
+  | readCubeMap w h => exact absurd rfl (hop w h)
+
+/-- The cube-map cross: cells are pairwise distinct and lie inside the 4x3 grid (so the
+face cells of a `4w x 3h` image are pairwise disjoint and inside the image). -/
+theorem cube_cells_disjoint :
+    (faceOffsets.map fun (_, x, y) => (x, y)).Nodup ∧
+      ∀ c ∈ faceOffsets, c.2.1 < 4 ∧ c.2.2 < 3 := by decide
+
+/-- The faces are visited in the documented order +X, -X, +Y, -Y, +Z, -Z. -/
+theorem cube_face_order : faceOffsets.map (·.1) = [1, 2, 4, 8, 16, 32] := by decide
+
+/-! ### the initial state satisfies the invariant -/
+
+/-- A decoder created for any accepted header starts in a state satisfying the invariant. -/
+theorem new_inv (hd : LayoutHeader) (px : PixelInfo) (hp : px.WF) (hr : C02.HeaderInRange hd)
+    (hm : 1 ≤ hd.mipmapCount) (L : DataLayout) (h : layoutOf hd px = some (.ok L))
+    (hsmall : C02.specTotal L ≤ I64MAX) : DecInv (Dec.new L) := by
+  obtain ⟨hv, _, hmips, hml, hvol, harr⟩ := C02.layoutOf_valid hd px hp hr L h
+  have hfresh : IterInv (SurfIter.new L) := by
+    cases L with
+    | texture t =>
+      obtain ⟨tv, h0⟩ := hv
+      have hf := tv.fits
+      rw [h0] at hf
+      exact ⟨tv.wf, h0, by show 1 ≤ t.mips; rw [show t.mips = hd.mipmapCount from hmips]; exact hm,
+        by show t.mips < 256; rw [show t.mips = hd.mipmapCount from hmips]; exact hml,
+        by simp [U32], by simpa using hf, tv.len_lt, tv.short,
+        Or.inl ⟨by show 0 < 1; omega, by show 0 < t.mips; rw [show t.mips = hd.mipmapCount from hmips]; omega⟩⟩
+    | volume v =>
+      obtain ⟨hdep, hdpos⟩ := hvol v rfl
+      exact ⟨hv, by show 1 ≤ v.mips; rw [show v.mips = hd.mipmapCount from hmips]; exact hm,
+        by show v.mips < 256; rw [show v.mips = hd.mipmapCount from hmips]; exact hml,
+        hr.d _ hdep, hdpos,
+        Or.inl ⟨by show 0 < v.mips; rw [show v.mips = hd.mipmapCount from hmips]; omega,
+          mipSize_pos _ _⟩⟩
+    | textureArray a =>
+      have hal := harr a rfl
+      have hmod : a.arrayLen % U32 = a.arrayLen := Nat.mod_eq_of_lt hal
+      show TexIter.Inv ⟨a.first, a.arrayLen % U32, 0, 0⟩
+      rw [hmod]
+      refine ⟨hv.wf, rfl, by show 1 ≤ a.mips; rw [show a.mips = hd.mipmapCount from hmips]; exact hm,
+        by show a.mips < 256; rw [show a.mips = hd.mipmapCount from hmips]; exact hml,
+        hal, hv.fits, hv.tex, hv.short, ?_⟩
+      by_cases h0 : a.arrayLen = 0
+      · exact Or.inr ⟨by show 0 = a.arrayLen; omega, rfl⟩
+      · exact Or.inl ⟨by show 0 < a.arrayLen; omega,
+          by show 0 < a.mips; rw [show a.mips = hd.mipmapCount from hmips]; omega⟩
+  refine ⟨hfresh, ?_, hfresh, rfl, rfl, rfl, ?_⟩
+  · show (0 : Int) = (elapsed (SurfIter.new L) : Int); rw [elapsed_new]; rfl
+  · show total (SurfIter.new L) ≤ I64MAX
+    cases L with
+    | texture t =>
+      show 1 * texIdeal t.px t.w t.h 0 t.mips ≤ I64MAX
+      simpa [C02.specTotal] using hsmall
+    | volume v => simpa [C02.specTotal, total, SurfIter.new] using hsmall
+    | textureArray a =>
+      have hal := harr a rfl
+      show (a.arrayLen % U32) * texIdeal a.px a.w a.h 0 a.mips ≤ I64MAX
+      rw [Nat.mod_eq_of_lt hal]
+      simpa [C02.specTotal] using hsmall
+
+/-- Reading every surface in order consumes exactly the data section: when the cursor is
+at the end the reader position is the data length. -/
+theorem end_position (d : Dec) (v : DecInv d) (hend : abs d.iter = count d.iter) :
+    d.pos = (total d.iter : Int) := by
+  rw [v.pos]
+  congr 1
+  cases hit : d.iter with
+  | tex t =>
+    have vi : t.Inv := by have := v.iter; rw [hit] at this; exact this
+    rw [hit] at hend
+    have hnot : ¬ t.idx < t.len := by
+      intro hlt
+      have := (TexIter.Inv.abs_lt_iff vi).2 hlt
+      show False
+      have hend' : t.abs = t.N := hend
+      omega
+    exact (tex_end_is_total t vi hnot).1
+  | vol t =>
+    have vi : t.Inv := by have := v.iter; rw [hit] at this; exact this
+    rw [hit] at hend
+    have hend' : t.abs = t.N := hend
+    have : t.level = t.volume.mips ∧ t.depth = 0 := by
+      cases vi.cursor with
+      | inl h' =>
+        exfalso
+        unfold VolIter.abs VolIter.N at hend'
+        have h1 := depthSum_split t.volume.d (t.level + 1) 0 (t.volume.mips - (t.level + 1))
+        have e : t.level + 1 + (t.volume.mips - (t.level + 1)) = t.volume.mips := by omega
+        rw [e, depthSum_succ_right] at h1
+        simp only [Nat.zero_add] at h1
+        omega
+      | inr h' => exact h'
+    show t.elapsed = _
+    unfold VolIter.elapsed total
+    rw [this.1, this.2]; simp
+
+/-! ### non-vacuity -/
+
+/-- a cube map with 2 mips: `read_cube_map` then everything is consumed (12 surfaces, 6 read) -/
+example :
+    let hd : LayoutHeader := { width := 2, height := 2, depth := none, mipmapCount := 2,
+                               kind := HeaderKind.dx10 true ResDim.tex2D 1 }
+    (match layoutOf hd (.fixed 1) with
+     | some (.ok L) =>
+       let r := (Dec.new L).step (.readCubeMap 8 6)
+       (r.2.1, r.1.pos, r.2.2.length)
+     | _ => (DecRes.panic, 0, 0)) = (DecRes.ok, 30, 6) := by decide
 
 end Dds.C08
